@@ -14,7 +14,7 @@ STRATEGIES = ["reliable", "default_pacbio", "sensitive_pacbio", "fl_pacbio", "de
 
 
 def noisy_world(seed, n_chroms=3):
-    w = world2.rich_world(seed, n_chroms=n_chroms, genes_per_chrom=3, reads_per_t=6, hidden_cov=7, unmapped=1)
+    w = world2.rich_world(seed, n_chroms=n_chroms, genes_per_chrom=3, reads_per_t=6, hidden_cov=7, unmapped=1, extra_len=70000)
     rng = w.rng
     # genes whose hidden isoform is a new combination of annotated introns (.nic)
     for ci, chrom in enumerate(w.chrom_order):
@@ -40,6 +40,11 @@ def noisy_world(seed, n_chroms=3):
             if last + 8000 < w.chrom_len(chrom):
                 _, end = world2.intronic_novel_loci(w, gid, chrom, last, "+-"[(k + ci) % 2])
                 last = end + 3000
+    # reads with a reference intron chain that end at an alternative polyA site far downstream of the annotated end
+    for ci, chrom in enumerate(w.chrom_order):
+        last = max([g.end for g in w.genes if g.chrom == chrom] + [1000]) + 3000
+        if last + 9000 < w.chrom_len(chrom):
+            world2.alt_polya_locus(w, "APA%d" % (ci + 1), chrom, last, "+-"[ci % 2], ext=(1200, 700, 2000)[ci % 3])
     # noise: reads with shifted junctions beyond tolerance, extended ends (novel models reaching beyond their gene)
     for g in list(w.genes):
         for t in g.hidden[:1]:
